@@ -3,8 +3,17 @@
     [bootengine.NewBootProcess(state).Finish] (or a bounded number of
     [NextStep] calls for cyclic families) and writes what it observed in
     [BootProcess.Log] and in the final [types.State]; [check] re-runs the
-    machine model AND the specification on the same family. *)
-From CSS Require Import Lib.Base Lib.Cases Model.Interp.
+    machine model AND the specification on the same family.
+
+    The harness writes [CHFinish] / [CHSteps]: the family comes with its
+    memory layout (Model/InterpHeap.v), the machine evaluated is the
+    slice-level [run_h] — its log and state read through the final heap
+    (Proofs/InterpHeap.v [run_keeps_family]: this is [run] on the family as
+    defined), where each logged slice points, the definition's arrays after
+    the run — and the specification is evaluated on the family as defined
+    before the run ([resolve_family]).  [CFinish] / [CSteps] are the same
+    without a layout. *)
+From CSS Require Import Lib.Base Lib.Cases Model.Interp Model.InterpHeap.
 
 (** observed log entry: step id, action codes, issue codes, measured ids,
     actor, actor whose code was attached *)
@@ -15,11 +24,22 @@ Definition oentry : Type := Z * list (Z * Z) * list Z * list Z * option Z * opti
 Definition oresult : Type :=
   list oentry * (Z * Z * Z) * list Z * option Z * option bool * bool.
 
+(** slice-level observation: for every log entry where [StepResult.Actions]
+    points — [Some (arr, off)]: into array [arr] of the flow definition at
+    offset [off]; [None]: nil, or memory that is not part of the definition —
+    and the contents (action codes, every slot) of the definition's arrays
+    AFTER the run *)
+Definition hobs : Type := list (option (nat * nat)) * list (list (Z * Z)).
+
 Inductive case : Type :=
 (* Finish on a stratified family *)
 | CFinish (fam : family) (c0 : core) (root : Z) (o : obs oresult)
 (* at most k NextStep calls on any family *)
-| CSteps (fam : family) (c0 : core) (root : Z) (k : nat) (o : obs oresult).
+| CSteps (fam : family) (c0 : core) (root : Z) (k : nat) (o : obs oresult)
+(* the same two with the memory layout of the definition: action arrays [h],
+   steps = windows into them *)
+| CHFinish (h : heap) (fam : hfamily) (c0 : core) (root : Z) (o : obs oresult) (ho : hobs)
+| CHSteps (h : heap) (fam : hfamily) (c0 : core) (root : Z) (k : nat) (o : obs oresult) (ho : hobs).
 
 Definition optz (a : option Z) : Z := match a with Some x => x + 1 | None => 0 end.
 
@@ -74,8 +94,51 @@ Definition spec_matches (o : oresult) (log : list entry) (c : core) (d : bool) :
   list_eqb oentry_eqb l (map entry_obs log) && zlist_eqb m (c_measured c)
   && opt_eqb a (c_actor c) && optb_eqb t (c_tpm c) && Bool.eqb d d'.
 
+Definition loc_of (n : nat) (s : option slice) : option (nat * nat) :=
+  match s with
+  | None => None
+  | Some s => if Nat.ltb (sl_arr s) n then Some (sl_arr s, sl_off s) else None
+  end.
+
+Definition loc_eqb (a b : option (nat * nat)) : bool :=
+  match a, b with
+  | None, None => true
+  | Some (x1, y1), Some (x2, y2) => Nat.eqb x1 x2 && Nat.eqb y1 y2
+  | _, _ => false
+  end.
+
+(** the slice-level machine against the observation: log and state read
+    through the FINAL heap, where each logged slice points, and what the
+    definition's arrays hold after the run *)
+Definition hcheck (h : heap) (r : outcome (mstate * heap * list hentry * bool))
+  (o : obs oresult) (ho : hobs) : bool :=
+  match r, o with
+  | Ok (st, h', log, d), OOk ro =>
+      oresult_eqb ro (machine_obs (st, map (read_entry h') log, d))
+      && list_eqb loc_eqb (fst ho) (map (fun e => loc_of (length h) (he_actions e)) log)
+      && list_eqb (list_eqb pair_eqb) (snd ho) (map (map acode) (firstn (length h) h'))
+  | Panic, OPanic => true
+  | _, _ => false
+  end.
+
 Definition check (c : case) : bool :=
   match c with
+  | CHFinish h hfam c0 root o ho =>
+      let fam := resolve_family h hfam in
+      wf_family (length h) hfam && stratified fam
+      && hcheck h (run_h grow_exact (fuel_bound fam) hfam (init_state root c0) h []) o ho
+      && match o with
+         | OOk r => let '(log, c') := exec_flow fam root c0 in spec_matches r log c' true
+         | _ => false
+         end
+  | CHSteps h hfam c0 root k o ho =>
+      let fam := resolve_family h hfam in
+      wf_family (length h) hfam
+      && hcheck h (run_h grow_exact k hfam (init_state root c0) h []) o ho
+      && match o with
+         | OOk r => let '(log, c', d) := spec_run k fam (flow_steps fam root) c0 in spec_matches r log c' d
+         | _ => false
+         end
   | CFinish fam c0 root o =>
       stratified fam
       && obs_match oresult_eqb
